@@ -856,6 +856,13 @@ class TorConfig:
             real_name = self._find_real_name(k)
             if real_name in self.parsers:
                 v = self.parsers[real_name].parse(v)
+            if real_name in self.list_parsers:
+                # list-valued options stay tracked lists, however
+                # many values Tor reported
+                if not isinstance(v, list):
+                    v = [v]
+                v = _ListWrapper(
+                    v, functools.partial(self.mark_unsaved, real_name))
             self.config[real_name] = v
 
     def bootstrap(self, arg=None):
